@@ -57,6 +57,7 @@ func c16Encoders(c *run.C) {
 		return
 	}
 	W := w0.Writes
+	c16Weight = streamWeight(s)
 	c.ObserveMax("max_writes_per_stream", W)
 	for _, k := range faultPositions(c, W) {
 		for _, cont := range []bool{false, true} {
@@ -170,6 +171,7 @@ func c16Parsers(c *run.C) {
 		return
 	}
 	E := m0.NEvents
+	c16Weight = E
 	c.ObserveMax("max_events_per_doc", E)
 	for _, k := range faultPositions(c, E) {
 		for entry := 0; entry < 5; entry++ {
@@ -268,6 +270,7 @@ func c16Adapters(c *run.C) {
 		return
 	}
 	E := m0.NEvents
+	c16Weight = E
 	for _, k := range faultPositions(c, E) {
 		m := mon.NewMonitor()
 		m.Fail, m.FailErr = k, mon.ErrVisitor
@@ -355,6 +358,7 @@ func c16Fold(c *run.C) {
 		return
 	}
 	c.ObserveMax("max_events_per_fold", E)
+	c16Weight = E
 	for _, k := range faultPositions(c, E) {
 		m := mon.NewMonitor()
 		m.Fail, m.FailErr = k, mon.ErrVisitor
@@ -399,15 +403,24 @@ func init() {
 // and some drawn from the case's generator, within a budget of about two
 // million writes / events per case.
 func faultPositions(c *run.C, n int) []int {
-	if n <= 1500 {
+	// work of one fault run ~ weight of the stream (elements of typed
+	// containers included); budget: about 3 million element-runs per case
+	w := c16Weight
+	if w < n {
+		w = n
+	}
+	if w < 1 {
+		w = 1
+	}
+	maxRuns := 3000000 / w
+	if n <= 1500 && n <= maxRuns {
 		ks := make([]int, n)
 		for i := range ks {
 			ks[i] = i + 1
 		}
 		return ks
 	}
-	// budget: about 2 million writes / events per case in total
-	per := 2000000 / n / 3
+	per := maxRuns / 3
 	if per < 8 {
 		per = 8
 	}
@@ -436,3 +449,8 @@ func faultPositions(c *run.C, n int) []int {
 	c.Observe("fault_runs_sampled_positions", 1)
 	return ks
 }
+
+// c16Weight is the weight (events + elements of typed containers) of the
+// stream / document of the current case; set by the case before it
+// enumerates fault positions.
+var c16Weight int
